@@ -503,7 +503,7 @@ def check_who_releases(ck):
 
 def run(ck):
     ck._orig_repo = getattr(ck, "_orig_repo", None) or ck.repo
-    ck.repo = normalized(ck.repo, NORM_MODULES)  # alias / named-boolean / temporary / setter-helper normalisation (vt/x_syncnorm.py)
+    ck.repo = normalized(ck.repo, NORM_MODULES, only=('tornado/locks.py',))  # alias / named-boolean / temporary / setter-helper normalisation (vt/x_syncnorm.py)
     ck.rule("C33.acquire-ts", "Semaphore.acquire: every normal path either takes one permit and grants the fresh future, or leaves _value alone and queues that future; the same future is returned")
     ck.rule("C33.release-ts", "Semaphore.release: every normal path either hands the permit to exactly one popped live waiter (net 0) or adds one permit after finding the queue empty; a popped waiter is dropped only if done()")
     ck.rule("C33.grant-guard", "acquire takes a permit only under _value > 0 and queues only under _value <= 0 (guards folded over all small integers)")
